@@ -29,7 +29,11 @@ func (engine) CoqHeader() string {
 }
 func (engine) CoqCaseType() string { return "ccase" }
 
-func (engine) Generate(r *lib.Rng, tier string, i int) any { return genCase(r, tier) }
+func (engine) Generate(r *lib.Rng, tier string, i int) any {
+	c := genCase(r, tier)
+	c.Storm = stormOf(c, tier)
+	return c
+}
 
 func (engine) Decode(raw json.RawMessage) (any, error) {
 	c := &Case{}
@@ -230,7 +234,7 @@ func summarise(ev []schema.VerifC19Event) hookSummary {
 			// were renamed) is counted with them — the engine has no other copy site than the callbacks'
 			actor, kind := attribute(e.Origin, "compose.streamReaderPacker.copy", copyActors)
 			switch {
-			case strings.Contains(e.Origin, "internal/callbacks.OnWithStreamHandle"):
+			case strings.Contains(e.Origin, "internal/callbacks."): // OnWithStreamHandle, under whatever name
 				s.CallbackCopies = append(s.CallbackCopies, e.N)
 			case kind == attrKnown && actor == actResolve:
 				s.Copies = append(s.Copies, e.N)
@@ -369,6 +373,14 @@ const (
 func (engine) Run(ci any) lib.Result {
 	c := ci.(*Case)
 	e := newEnv(c)
+
+	if c.Storm != nil {
+		// before the run, with the accounting log off: sibling copies closed at the same moment (storm.go)
+		if why := closeStorm(c.Storm); why != "" {
+			return lib.Result{Obs: &Obs{Class: "storm", Msg: why, Execs: []string{}, Producers: []string{}},
+				Oracle: why, Sig: "close-storm", Tags: []string{"class:storm-failed", "has:close-storm"}}
+		}
+	}
 
 	base := map[int]bool{}
 	for _, g := range dumpGoroutines() {
@@ -1153,6 +1165,9 @@ func tagsOf(c *Case, e *env, o *Obs) []string {
 	}
 	if c.State {
 		t = append(t, "opt:state-handlers")
+	}
+	if c.Storm != nil {
+		t = append(t, "has:close-storm", fmt.Sprintf("storm-copies:%d", c.Storm.Copies))
 	}
 	if o.Hook.Unattributed > 0 {
 		// engine events attributed by position only: the functions of the run loop carry other names than the
